@@ -91,7 +91,10 @@ func (l *List[T]) IsSorted(lt cmp.LessThan[T]) bool {
 		return true
 	}
 
-	for item := l.root.Next(); item.next.Ok(); item = item.Next() {
+	// compare every element, from the second to the last, with its
+	// predecessor (the first element has none: its predecessor is the
+	// root sentinel.)
+	for item := l.root.Next().Next(); item.Ok(); item = item.Next() {
 		if lt(item.Value(), item.Previous().Value()) {
 			return false
 		}
